@@ -11,7 +11,7 @@ import typedlib as t
 from typedlib import list_case, typed_case, wire
 from vlib import Failure, finish, unhexs
 
-COQ_FILES = ["Bytes.v", "ParserModel.v", "FrameModel.v", "FrameProofs.v", "TagModel.v", "TagProofs.v", "TypedModel.v", "TypedSpec.v", "TypedProofs.v"]
+COQ_FILES = ["Bytes.v", "ParserModel.v", "FrameModel.v", "FrameProofs.v", "TagModel.v", "TagProofs.v", "TypedModel.v", "TypedSpec.v", "TypedProofs.v", "SongStd.v", "SongModel.v", "SongProofs.v"]
 
 NUMS = ["0", "1", "255", "256", "65536", "4294967295", "4294967296", str(2 ** 63), str(2 ** 64 - 1), str(2 ** 64), str(2 ** 64 + 1),
         "18446744073709550592", "18446744073709549568", "1e300", "1e308", "1e309", "1e19", "1.8446744073709552e19", "inf", "-inf", "+inf",
